@@ -128,7 +128,7 @@ pub fn judge_scenario(property: &str, sc: &Scenario) -> Result<Option<(String, S
     let mut st = Stats::default();
     let v = match (property, sc) {
         ("C07", Scenario::Stream(s)) => {
-            if s.target != crate::stream::tape::Target::Value || !s.ends_at_terminal() || s.entry == crate::stream::tape::Entry::ParseIn { return Err("not a C07 scenario (target Value, nothing delivered after the first terminal event)".into()); }
+            if !s.ends_at_terminal() || s.entry == crate::stream::tape::Entry::ParseIn { return Err("not a C07 scenario (nothing delivered after the first terminal event, not the parse_in entry)".into()); }
             c07::execute_c07(s, 0, &mut st, 0, None).violation
         }
         ("C03", Scenario::Stream(s)) => c03::execute_c03(s, 0, &mut st, 0, None).violation,
